@@ -2682,3 +2682,150 @@ Section Loc.
   Qed.
 
 End Loc.
+
+(* ------------------------------------------------------------------------------------------------ *)
+(* ---------------- byte level, for texts made of ASCII bytes ---------------- *)
+Definition ascc (c : ch) : Prop := exists b, b < 128 /\ c = asc b.
+Definition ascl (l : list ch) : Prop := forall c, In c l -> ascc c.
+
+Lemma decode_go_ascii : forall s, ascii_bytes s = true -> decode_go 0 s = map asc s.
+Proof.
+  induction s as [|b t IH]; intro H; [reflexivity|]. cbn in H. apply andb_prop in H. destruct H as [H1 H2].
+  cbn [decode_go dec1]. rewrite H1. cbn [asc raw length Nat.sub map]. f_equal. apply IH. exact H2.
+Qed.
+
+Lemma decode_ascii : forall s, ascii_bytes s = true -> decode s = map asc s.
+Proof. exact decode_go_ascii. Qed.
+
+Lemma ascl_map_asc : forall s, ascii_bytes s = true -> ascl (map asc s).
+Proof.
+  intros s H c Hc. apply in_map_iff in Hc. destruct Hc as (b & E & Hb). subst. exists b. split; [|reflexivity].
+  unfold ascii_bytes in H. rewrite forallb_forall in H. apply N.ltb_lt. apply H. exact Hb.
+Qed.
+
+Lemma encode_ascl : forall l, ascl l -> ascii_bytes (encode l) = true /\ map asc (encode l) = l.
+Proof.
+  induction l as [|c t IH]; intro H; [split; reflexivity|].
+  destruct (H c (or_introl eq_refl)) as (b & Hb & E). subst c.
+  destruct IH as [I1 I2]; [intros x Hx; apply H; right; exact Hx|].
+  unfold encode in *. cbn [flat_map asc raw app]. cbn [ascii_bytes forallb map]. split.
+  - apply andb_true_intro. split; [apply N.ltb_lt; exact Hb|exact I1].
+  - f_equal. exact I2.
+Qed.
+
+Lemma decode_encode_ascl : forall l, ascl l -> decode (encode l) = l.
+Proof. intros l H. destruct (encode_ascl l H) as [H1 H2]. rewrite decode_ascii by exact H1. exact H2. Qed.
+
+
+Lemma onbytes_idem : forall f, (forall l, ascl l -> ascl (f l)) -> (forall t, f (f t) = f t) ->
+  forall s, ascii_bytes s = true -> onbytes f (onbytes f s) = onbytes f s.
+Proof.
+  intros f Hk Hi s Hs. unfold onbytes. rewrite (decode_ascii s Hs).
+  rewrite decode_encode_ascl by (apply Hk; apply ascl_map_asc; exact Hs). rewrite Hi. reflexivity.
+Qed.
+
+(* the fixers keep ASCII texts ASCII *)
+Lemma ascl_nil : ascl [].
+Proof. intros c []. Qed.
+Lemma ascc_spc : ascc spc. Proof. exists 32. split; [reflexivity|reflexivity]. Qed.
+Lemma ascc_nlc : ascc nlc. Proof. exists 10. split; [reflexivity|reflexivity]. Qed.
+Lemma ascc_wr : forall c, ascc c -> wr c = c.
+Proof. intros c (b & _ & E). subst. reflexivity. Qed.
+
+Lemma ascl_split : forall t l, ascl t -> In l (split_nl t) -> ascl l.
+Proof. intros t l H Hl c Hc. apply H. eapply split_incl; eassumption. Qed.
+
+Lemma ascl_join : forall ls, (forall l, In l ls -> ascl l) -> ascl (join_nl ls).
+Proof.
+  induction ls as [|x r IH]; intro H; [intros c []|]. destruct r as [|y r].
+  - cbn. apply H. left. reflexivity.
+  - rewrite join_cons2. intros c Hc. apply in_app_or in Hc. destruct Hc as [Hc|[Hc|Hc]].
+    + apply (H x (or_introl eq_refl)). exact Hc.
+    + subst. apply ascc_nlc.
+    + apply IH; [intros l Hl; apply H; right; exact Hl|exact Hc].
+Qed.
+
+Lemma ascl_per_line : forall f t, (forall l, ascl l -> ascl (f l)) -> ascl t -> ascl (per_line f t).
+Proof.
+  intros f t Hf Ht. unfold per_line. apply ascl_join. intros l Hl. apply in_map_iff in Hl. destruct Hl as (l0 & E & Hl0). subst.
+  apply Hf. eapply ascl_split; eassumption.
+Qed.
+
+Lemma ascl_l001 : forall t, ascl t -> ascl (l001_fix t).
+Proof.
+  intros t H. rewrite l001_fix_per_line. apply ascl_per_line; [|exact H]. intros l Hl c Hc. apply Hl. eapply trim_r_incl. exact Hc.
+Qed.
+
+Lemma ascl_l002 : forall t, ascl t -> ascl (l002_fix t).
+Proof.
+  intros t H. change (l002_fix t) with (per_line l002_fix_line t). apply ascl_per_line; [|exact H]. intros l Hl c Hc.
+  rewrite l002_line_shape in Hc. apply in_app_or in Hc. destruct Hc as [Hc|Hc].
+  - apply in_flat_map in Hc. destruct Hc as (d & Hd & Hc). apply in_tab4 in Hc. destruct Hc as [Hc|Hc]; subst; [apply ascc_spc|].
+    apply Hl. eapply take_l_incl. exact Hd.
+  - apply Hl. eapply trim_l_incl. exact Hc.
+Qed.
+
+Lemma ascl_l003 : forall is_space t, ascl t -> ascl (l003_fix is_space t).
+Proof.
+  intros is_space t H. unfold l003_fix, l003_fix_mx. fold (l003_lines is_space 1 (split_nl t)). rewrite l003_lines_eq.
+  apply ascl_join. intros l Hl. apply pass_incl in Hl. eapply ascl_split; eassumption.
+Qed.
+
+Lemma ascl_l010 : forall t, ascl t -> ascl (l010_fix t).
+Proof.
+  intros t H. change (l010_fix t) with (per_line l010_fix_line t). apply ascl_per_line; [|exact H]. intros l Hl c Hc.
+  unfold l010_fix_line in Hc.
+  assert (G : forall m, (forall y, In y m -> In y l) -> In c (l010_scan None false m) -> ascc c).
+  { intros m Hm Hin. apply l010_scan_in in Hin. destruct Hin as (d & Hd & E). subst. rewrite ascc_wr; apply Hl; apply Hm; exact Hd. }
+  destruct (trim_l is_blank l) as [|d r] eqn:E.
+  - eapply G; [|exact Hc]. auto.
+  - apply in_app_or in Hc. destruct Hc as [Hc|Hc]; [apply Hl; eapply take_l_incl; exact Hc|].
+    eapply G; [|exact Hc]. intros y Hy. eapply trim_l_incl. rewrite E. exact Hy.
+Qed.
+
+Section A7.
+  Variables is_letter is_digit is_space : N -> bool.
+  Variable upper_ascii : N -> option N.
+  Variable keywords : list (list N).
+  Hypothesis up_noquote : forall x u, upper_ascii x = Some u -> u <> 39 /\ u <> 34 /\ u <> 10.
+  Hypothesis up_ascii : forall x u, upper_ascii x = Some u -> u < 128.
+
+  Lemma ascl_l007 : forall t, ascl t -> ascl (l007_fix is_letter is_digit upper_ascii keywords t).
+  Proof.
+    intros t H. unfold l007_fix. apply (ascl_per_line (l007_fix_line is_letter is_digit upper_ascii keywords)); [|exact H].
+    intros l Hl c Hc. unfold l007_fix_line in Hc. apply (l007_scan_in is_letter is_digit upper_ascii keywords) in Hc.
+    destruct Hc as [(d & Hd & E)|[(b & y & E & Hy)|(w & Hw & _)]]; [|subst; exists b; split; [eapply up_ascii; exact Hy|reflexivity]|discriminate].
+    subst. rewrite ascc_wr; apply Hl; exact Hd.
+  Qed.
+
+  Lemma ascl_cli : forall t, ascl t -> ascl (cli_fix is_letter is_digit is_space upper_ascii keywords t).
+  Proof. intros t H. unfold cli_fix. apply ascl_l007. apply ascl_l010. apply ascl_l003. apply ascl_l002. apply ascl_l001. exact H. Qed.
+
+  Lemma ascl_fmt : forall ind ls cur, ascl ind -> ascl cur -> (forall l, In l ls -> ascl l) ->
+    forall l, In l (fmt_lines is_space upper_ascii ind cur ls) -> ascl l.
+  Proof.
+    intros ind. induction ls as [|x r IH]; intros cur Hi Hc Hls l Hl; [destruct Hl|]. cbn [fmt_lines] in Hl.
+    assert (Hr : forall l0, In l0 r -> ascl l0) by (intros l0 H0; apply Hls; right; exact H0).
+    destruct (trim_space is_space x) as [|c tr] eqn:E; [eapply IH; eassumption|].
+    assert (Hn : ascl (fmt_next_indent upper_ascii ind cur (c :: tr))).
+    { unfold fmt_next_indent. destruct (existsb _ fmt_reset); [intros z []|]. destruct (existsb _ fmt_indent); [exact Hi|].
+      destruct (existsb _ fmt_reset2); [intros z []|exact Hc]. }
+    destruct Hl as [Hl|Hl]; [|eapply IH; [exact Hi|exact Hn|exact Hr|exact Hl]]. subst. intros z Hz. apply in_app_or in Hz. destruct Hz as [Hz|Hz].
+    - apply Hn. exact Hz.
+    - apply (Hls x (or_introl eq_refl)). rewrite <- E in Hz. unfold trim_space in Hz. apply trim_r_incl in Hz. apply trim_l_incl in Hz. exact Hz.
+  Qed.
+
+  Lemma ascl_format : forall tab spaces final t, ascl t -> ascl (format_sql is_space upper_ascii tab spaces final t).
+  Proof.
+    intros tab spaces final t H. unfold format_sql.
+    set (ind := if spaces then repeat spc tab else [asc 9]).
+    assert (Hi : ascl ind).
+    { unfold ind. destruct spaces.
+      - intros c Hc. apply repeat_spec in Hc. subst. apply ascc_spc.
+      - intros c Hc. cbn in Hc. destruct Hc as [Hc|[]]. subst. exists 9. split; reflexivity. }
+    set (f := join_nl (fmt_lines is_space upper_ascii ind [] (split_nl t))).
+    assert (Hf : ascl f).
+    { unfold f. apply ascl_join. intros l Hl. eapply ascl_fmt; [exact Hi|exact ascl_nil| |exact Hl]. intros l0 H0. exact (ascl_split t l0 H H0). }
+    destruct (final && negb (ends_nl f)); [|exact Hf]. unfold ascl. intros c Hc. apply in_app_or in Hc. destruct Hc as [Hc|Hc]; [apply Hf; exact Hc|]. cbn in Hc. destruct Hc as [Hc|[]]. subst. apply ascc_nlc.
+  Qed.
+End A7.
